@@ -267,3 +267,95 @@ Arguments WValue {V}.
 Arguments WShort {V}.
 Arguments WFull {V}.
 Arguments WRef {V}.
+
+(* ---------------------------------------------------------------- executable checks for the correspondence harness
+   The harness records what a real Trie.Commit puts (hist keys and blobs) and what a real pruner round puts and deletes,
+   decodes keys and blobs, and replays them on this store model: link_check evaluates the link condition of
+   Store/ProofsPrune.v on the real entries (every node the new root follows is an entry of the commit or a node the
+   parent root follows; nothing else is written; entries are well-formed blobs), prune_round predicts the deduped puts
+   (checkpoint_nodes per trie) and deleted_keys the hist deletions of a round. *)
+Section Tie.
+  Variable V : Type.
+  Variable veqb : V -> V -> bool.
+
+  Fixpoint snode_eqb (a b : snode V) : bool :=
+    match a, b with
+    | SNil, SNil => true
+    | SValue x, SValue y => veqb x y
+    | SShort k c, SShort k' c' => path_eqb k k' && snode_eqb c c'
+    | SFull cs, SFull cs' =>
+      (fix go (l l' : list (snode V)) : bool :=
+         match l, l' with
+         | [], [] => true
+         | x :: t, y :: t' => snode_eqb x y && go t t'
+         | _, _ => false
+         end) cs cs'
+    | SRef v, SRef v' => ver_eqb v v'
+    | _, _ => false
+    end.
+
+  Fixpoint wfk_b (n : snode V) : bool :=
+    match n with
+    | SShort k c => negb (is_root k) && wfk_b c
+    | SFull cs => forallb wfk_b cs
+    | _ => true
+    end.
+  Definition blob_ok_b (b : snode V) : bool :=
+    match b with SShort _ _ | SFull _ => wfk_b b | _ => false end.
+
+  (* every standalone node followed while resolving root (name, v), in pre-order *)
+  Definition reach_list (f : nat) (s : store V) (name : N) (v : ver) : option (list (list nat * ver * snode V)) :=
+    iter_nodes V f (sget V s name) (0, 0) [] (SRef v).
+
+  Definition node_mem (x : list nat * ver * snode V) (l : list (list nat * ver * snode V)) : bool :=
+    existsb (fun y => path_eqb (fst (fst x)) (fst (fst y)) && ver_eqb (snd (fst x)) (snd (fst y)) && snode_eqb (snd x) (snd y)) l.
+
+  Fixpoint elookup (q : list nat) (es : list (list nat * snode V)) : option (snode V) :=
+    match es with
+    | [] => None
+    | (p, b) :: t => if path_eqb q p then Some b else elookup q t
+    end.
+
+  (* 0 ok; 1 the new root does not resolve; 2 the parent root does not resolve; 3 a followed node is neither an entry of
+     the commit nor a node of the parent root; 4 an entry is not followed from the new root; 5 an entry is not a
+     well-formed blob *)
+  Definition link_check (f : nat) (s : store V) (name : N) (newv : ver) (es : list (list nat * snode V)) (parent : option ver) : N :=
+    let s' := commit V s name newv es in
+    match reach_list f s' name newv with
+    | None => 1
+    | Some new =>
+      match (match parent with Some vp => reach_list f s name vp | None => Some [] end) with
+      | None => 2
+      | Some old =>
+        if negb (forallb (fun x => if ver_eqb (snd (fst x)) newv
+                                   then match elookup (fst (fst x)) es with Some b => snode_eqb b (snd x) | None => false end
+                                   else node_mem x old) new) then 3
+        else if negb (forallb (fun e => node_mem (fst e, newv, snd e) new) es) then 4
+        else if negb (forallb (fun e => blob_ok_b (snd e)) es) then 5
+        else 0
+      end
+    end.
+
+  (* the checkpoints of a round: one iterator pass per trie (name, root version) over the pre-round store *)
+  Fixpoint checkpoint_all (f : nat) (s : store V) (tries : list (N * ver)) (base : N)
+    : option (list (N * list (list nat * ver * snode V))) :=
+    match tries with
+    | [] => Some []
+    | (name, v) :: t =>
+      match checkpoint_nodes V f s name v base, checkpoint_all f s t base with
+      | Some nodes, Some r => Some ((name, nodes) :: r)
+      | _, _ => None
+      end
+    end.
+
+  Definition prune_round (f : nat) (s : store V) (tries : list (N * ver)) (base target : N)
+    : option (store V * list (N * list (list nat * ver * snode V))) :=
+    match checkpoint_all f s tries base with
+    | Some cps => Some (delete_history V (fold_left (fun st c => checkpoint V st (fst c) (snd c)) cps s) base target, cps)
+    | None => None
+    end.
+
+  (* the hist keys DeleteHistoryNodes [base, target) removes *)
+  Definition deleted_keys (s : store V) (base target : N) : list (N * list nat * ver) :=
+    map (fun e => fst e) (filter (fun e => in_deleted V s base target (snd (fst e))) (hist V s)).
+End Tie.
